@@ -143,6 +143,19 @@ func exportPoint(rig *Rig, sc *Scenario, s *State, fresh *State) c19Result {
 	}
 	// price terms and ownership indexes rebuilt
 	iv := rig.Decode(imported)
+	// ... to the terms in force on the exporting chain
+	if d := rawSetDiff(pv.Pricing, iv.Pricing); d != "" {
+		add("imported-price-terms-equal-the-exported-chain's", "pricing", "price-term records after import differ from those in force at export: "+d)
+	}
+	if d := rawSetDiff(pv.Owner, iv.Owner); d != "" {
+		add("imported-ownership-equals-the-exported-chain's", "owner", "provider->owner records after import differ: "+d)
+	}
+	if d := rawSetDiff(pv.OwnerProv, iv.OwnerProv); d != "" {
+		add("imported-ownership-equals-the-exported-chain's", "owner-provider", "owner->provider records after import differ: "+d)
+	}
+	if d := rawSetDiff(pv.OwnerBind, iv.OwnerBind); d != "" {
+		add("imported-ownership-equals-the-exported-chain's", "owner-binding", "owner->binding records after import differ: "+d)
+	}
 	x := &OCtx{Sc: sc, Rig: rig, wit: map[string]int64{}, outc: map[string]int64{}}
 	for _, v := range (oracleC15{}).Invariant(x, iv, NewMon()) {
 		add("imported-bindings-have-price-terms-and-indexes", v.Clause, v.Detail)
@@ -158,6 +171,27 @@ func exportPoint(rig *Rig, sc *Scenario, s *State, fresh *State) c19Result {
 	}
 	res.wit["C19:export-points"]++
 	return res
+}
+
+func rawSetDiff(a, b []RawRec) string {
+	am := map[string][]byte{}
+	for _, r := range a {
+		am[string(r.K)] = r.V
+	}
+	for _, r := range b {
+		v, ok := am[string(r.K)]
+		if !ok {
+			return fmt.Sprintf("key %X only after import", r.K)
+		}
+		if !bytes.Equal(v, r.V) {
+			return fmt.Sprintf("key %X differs", r.K)
+		}
+		delete(am, string(r.K))
+	}
+	for k := range am {
+		return fmt.Sprintf("key %X only before export", []byte(k))
+	}
+	return ""
 }
 
 func genesisDiff(a, b *st.GenesisState) string {
